@@ -574,6 +574,10 @@ def _set_item(
             return tensor
         elif isinstance(tensor, NonTensorData):
             tensor = NonTensorStack.from_nontensordata(tensor)
+        else:
+            # a member with batch dims cannot be written at an index: one value per position
+            # first (the same object when the stack already is like that)
+            tensor = tensor.maybe_to_stack()
         if tensor.stack_dim != 0:
             tensor = NonTensorStack(*tensor.unbind(0), stack_dim=0)
         tensor[index] = value
